@@ -35,36 +35,36 @@ def Post (id0 : Nat) (sup0 : Option Nat) (a : Actor) (s : St) : Prop :=
 
 def Inv (me : Nat) (a : Actor) (s : St) : Prop := Post me a.sup a s
 
-variable (strict : Bool) (me : Nat)
+variable (me : Nat)
 
 /-! ### the automaton on each kind of event -/
 
 @[simp] theorem next_enter (s : St) (cb : Cb) (x : Arg) :
-    next strict me s (.enter cb x) = .ok { s with startable := false } := rfl
-@[simp] theorem next_tick (s : St) (cb : Cb) : next strict me s (.tick cb) = .ok s := rfl
+    next me s (.enter cb x) = .ok { s with startable := false } := rfl
+@[simp] theorem next_tick (s : St) (cb : Cb) : next me s (.tick cb) = .ok s := rfl
 @[simp] theorem next_sendRet (s : St) (b : Bool) (m : Nat) (ok : Bool) :
-    next strict me s (.sendRet b m ok) = .ok s := rfl
-@[simp] theorem next_supArrive (s : St) (e : SupEv) : next strict me s (.supArrive e) = .ok s := rfl
-@[simp] theorem next_supIs (s : St) (p : Option Nat) : next strict me s (.supIs p) = .ok { s with sup := p } := rfl
-@[simp] theorem next_aborted (s : St) : next strict me s .aborted = .ok { s with aborted := true } := rfl
-@[simp] theorem next_dropped (s : St) : next strict me s .dropped = .ok { s with preFailed := true } := rfl
+    next me s (.sendRet b m ok) = .ok s := rfl
+@[simp] theorem next_supArrive (s : St) (e : SupEv) : next me s (.supArrive e) = .ok s := rfl
+@[simp] theorem next_supIs (s : St) (p : Option Nat) : next me s (.supIs p) = .ok { s with sup := p } := rfl
+@[simp] theorem next_aborted (s : St) : next me s .aborted = .ok { s with aborted := true } := rfl
+@[simp] theorem next_dropped (s : St) : next me s .dropped = .ok { s with preFailed := true } := rfl
 @[simp] theorem next_cancelled_pre (s : St) :
-    next strict me s (.cancelled .preStart) = .ok { s with preFailed := true } := rfl
+    next me s (.cancelled .preStart) = .ok { s with preFailed := true } := rfl
 theorem next_cancelled_other (s : St) (cb : Cb) (h : cb ≠ .preStart) :
-    next strict me s (.cancelled cb) = .ok s := by
+    next me s (.cancelled cb) = .ok s := by
   cases cb <;> first | rfl | exact absurd rfl h
 @[simp] theorem next_stopRet (s : St) (b : Bool) (r : Reason) (ok : Bool) :
-    next strict me s (.stopRet b r ok) = .ok (if ok then { s with stopReason := some r } else s) := by
+    next me s (.stopRet b r ok) = .ok (if ok then { s with stopReason := some r } else s) := by
   cases ok <;> rfl
 @[simp] theorem next_killRet (s : St) (b : Bool) (ok : Bool) :
-    next strict me s (.killRet b ok) = .ok (if ok then { s with killed := true } else s) := by
+    next me s (.killRet b ok) = .ok (if ok then { s with killed := true } else s) := by
   cases ok <;> rfl
 @[simp] theorem next_drainRet (s : St) (ok : Bool) :
-    next strict me s (.drainRet ok) = .ok (if ok then { s with drainReq := true } else s) := by
+    next me s (.drainRet ok) = .ok (if ok then { s with drainReq := true } else s) := by
   cases ok <;> rfl
-theorem next_spawnRet_err (s : St) (r : SpawnRet) (h : r ≠ .ok) : next strict me s (.spawnRet r) = .ok s := by
+theorem next_spawnRet_err (s : St) (r : SpawnRet) (h : r ≠ .ok) : next me s (.spawnRet r) = .ok s := by
   cases r <;> first | rfl | exact absurd rfl h
-theorem next_spawnRet_ok (s : St) (h : s.preFailed = false) : next strict me s (.spawnRet .ok) = .ok s := by
+theorem next_spawnRet_ok (s : St) (h : s.preFailed = false) : next me s (.spawnRet .ok) = .ok s := by
   simp [next, h]
 
 /-- The automaton state after `exit cb r`. -/
@@ -79,11 +79,11 @@ def exitUpd (cb : Cb) (r : Res) (s : St) : St :=
   | _, .panic n => { s with fail := some (true, n) }
 
 @[simp] theorem next_exit (s : St) (cb : Cb) (r : Res) :
-    next strict me s (.exit cb r) = .ok (exitUpd cb r s) := by
+    next me s (.exit cb r) = .ok (exitUpd cb r s) := by
   cases cb <;> cases r <;> rfl
 
 theorem next_join_ok (s : St) (h : s.sup.isSome = true → s.terminalEmitted = true) :
-    next strict me s (.join .ok) = .ok s := by
+    next me s (.join .ok) = .ok s := by
   simp only [next]
   split
   · rename_i hc; simp at hc; have := h hc.1; simp_all
@@ -91,7 +91,7 @@ theorem next_join_ok (s : St) (h : s.sup.isSome = true → s.terminalEmitted = t
 
 theorem next_join_cancelled (s : St) (ha : s.aborted = true)
     (h : s.sup.isSome = true → s.terminalEmitted = true) :
-    next strict me s (.join .cancelled) = .ok s := by
+    next me s (.join .cancelled) = .ok s := by
   simp only [next, ha]
   simp only [Bool.not_true, Bool.false_eq_true, ↓reduceIte]
   split
@@ -100,13 +100,13 @@ theorem next_join_cancelled (s : St) (ha : s.aborted = true)
 
 theorem next_emit_started (s : St) (p : Nat) (hsup : s.sup = some p) (hpf : s.preFailed = false)
     (ht : s.terminalEmitted = false) (hse : s.startedEmitted = false) (hst : s.startable = true) :
-    next strict me s (.emit p (.started me)) = .ok { s with startedEmitted := true, startable := false } := by
+    next me s (.emit p (.started me)) = .ok { s with startedEmitted := true, startable := false } := by
   simp [next, SupEv.who, SupEv.isTerminal, hsup, hpf, ht, hse, hst]
 
 theorem next_emit_terminal (s : St) (p : Nat) (e : SupEv) (hw : e.who = me) (hterm : e.isTerminal = true)
     (hsup : s.sup = some p) (hpf : s.preFailed = false) (ht : s.terminalEmitted = false)
-    (hc : classify strict s e = .ok ()) :
-    next strict me s (.emit p e) = .ok { s with terminalEmitted := true } := by
+    (hc : classify s e = .ok ()) :
+    next me s (.emit p e) = .ok { s with terminalEmitted := true } := by
   simp [next, hw, hterm, hsup, hpf, ht, hc]
 
 
@@ -122,8 +122,8 @@ theorem cleanup_none (a : Actor) :
 theorem cleanup_some (a : Actor) (e : SupEv) (s : St) (hid : a.id = me) (hsup : s.sup = a.sup)
     (harmed : a.armed = true) (hpf : s.preFailed = false) (ht : s.terminalEmitted = false)
     (hw : e.who = me) (hterm : e.isTerminal = true)
-    (hc : a.sup.isSome = true → classify strict s e = .ok ()) :
-    ∃ s', accepts (next strict me) s (evs (cleanup a (some e)).2) = .ok s' ∧ s'.sup = s.sup ∧
+    (hc : a.sup.isSome = true → classify s e = .ok ()) :
+    ∃ s', accepts (next me) s (evs (cleanup a (some e)).2) = .ok s' ∧ s'.sup = s.sup ∧
       s'.aborted = s.aborted ∧ (s.sup.isSome = true → s'.terminalEmitted = true) ∧
       (cleanup a (some e)).1.id = me ∧ (cleanup a (some e)).1.phase = a.phase := by
   unfold cleanup
@@ -136,59 +136,55 @@ theorem cleanup_some (a : Actor) (e : SupEv) (s : St) (hid : a.id = me) (hsup : 
     have hsp : s.sup = some p := by rw [hsup, hs]
     refine ⟨{ s with terminalEmitted := true }, ?_, rfl, rfl, fun _ => rfl, by simp [Actor.setStatus, hid], by simp [Actor.setStatus]⟩
     simp only [Actor.setStatus, hs, evs_append, evs_cons_eff, evs_cons_ev, evs_nil, List.nil_append, List.append_nil]
-    rw [accepts_cons_ok _ _ (next_emit_terminal strict me s p e hw hterm hsp hpf ht (hc (by simp [hs])))]
+    rw [accepts_cons_ok _ _ (next_emit_terminal me s p e hw hterm hsp hpf ht (hc (by simp [hs])))]
     rfl
 
 theorem finish_sim (a : Actor) (e : SupEv) (s : St) (hid : a.id = me) (hsup : s.sup = a.sup)
     (harmed : a.armed = true) (hpf : s.preFailed = false) (ht : s.terminalEmitted = false)
     (hw : e.who = me) (hterm : e.isTerminal = true)
-    (hc : a.sup.isSome = true → classify strict s e = .ok ()) :
-    Sim (next strict me) (Post me s.sup) s (finish a e) := by
-  obtain ⟨s1, hacc, h1, _, h3, h4, _⟩ := cleanup_some strict me a e s hid hsup harmed hpf ht hw hterm hc
+    (hc : a.sup.isSome = true → classify s e = .ok ()) :
+    Sim (next me) (Post me s.sup) s (finish a e) := by
+  obtain ⟨s1, hacc, h1, _, h3, h4, _⟩ := cleanup_some me a e s hid hsup harmed hpf ht hw hterm hc
   refine ⟨s1, ?_, ?_, h1, Or.inl (by simp [finish, Actor.dropPorts])⟩
   · simp only [finish, andThen_snd, evs_append, evs_cons_ev, evs_nil]
     rw [accepts_append _ _ hacc]
-    rw [accepts_cons_ok _ _ (next_join_ok strict me s1 (by rw [h1]; exact h3))]
+    rw [accepts_cons_ok _ _ (next_join_ok me s1 (by rw [h1]; exact h3))]
     rfl
   · simpa [finish, Actor.dropPorts] using h4
 
 theorem failSpawn_sim (a : Actor) (r : SpawnRet) (s : St) (hid : a.id = me) (hr : r ≠ .ok) :
-    Sim (next strict me) (Post me s.sup) s (failSpawn a r) := by
+    Sim (next me) (Post me s.sup) s (failSpawn a r) := by
   obtain ⟨h1, h2, _⟩ := cleanup_none a
   refine ⟨s, ?_, ?_, rfl, Or.inl (by simp [failSpawn, Actor.dropPorts])⟩
   · simp only [failSpawn, andThen_snd, evs_append, h1, evs_cons_ev, evs_nil, List.nil_append]
-    rw [accepts_cons_ok _ _ (next_spawnRet_err strict me s r hr)]
+    rw [accepts_cons_ok _ _ (next_spawnRet_err me s r hr)]
     rfl
   · simp [failSpawn, Actor.dropPorts, h2, hid]
 
 theorem classify_killed_noState (s : St) (c : Nat) (hk : s.killed = true) :
-    classify strict s (.terminated c false .killed) = .ok () := by
-  simp [classify, hk]
-
-theorem classify_killed_state (s : St) (c : Nat) (hk : s.killed = true) :
-    classify false s (.terminated c true .killed) = .ok () := by
+    classify s (.terminated c false .killed) = .ok () := by
   simp [classify, hk]
 
 theorem killedOutsideLoop_sim (a : Actor) (s : St) (hid : a.id = me) (hsup : s.sup = a.sup)
     (harmed : a.armed = true) (hpf : s.preFailed = false) (ht : s.terminalEmitted = false)
     (hk : a.sup.isSome = true → s.killed = true) :
-    Sim (next strict me) (Post me s.sup) s (killedOutsideLoop a) := by
+    Sim (next me) (Post me s.sup) s (killedOutsideLoop a) := by
   unfold killedOutsideLoop
   refine Sim.andThen _ (R1 := fun a1 s1 => s1 = s ∧ a1 = { a with kids := none }) ⟨s, by simp [handleSignal], rfl, rfl⟩ ?_
   rintro a1 s1 ⟨rfl, rfl⟩
-  exact finish_sim strict me _ _ _ hid hsup harmed hpf ht (by simp [SupEv.who, hid]) rfl
-    (fun h => classify_killed_noState strict s1 _ (hk h))
+  exact finish_sim me _ _ _ hid hsup harmed hpf ht (by simp [SupEv.who, hid]) rfl
+    (fun h => classify_killed_noState s1 _ (hk h))
 
 theorem killedInLoop_sim (a : Actor) (s : St) (hid : a.id = me) (hsup : s.sup = a.sup)
     (harmed : a.armed = true) (hpf : s.preFailed = false) (ht : s.terminalEmitted = false)
     (hk : a.sup.isSome = true → s.killed = true) :
-    Sim (next false me) (Post me s.sup) s (killedInLoop a) := by
+    Sim (next me) (Post me s.sup) s (killedInLoop a) := by
   unfold killedInLoop
   refine Sim.andThen _ (R1 := fun a1 s1 => s1 = s ∧ a1 = { a with kids := none }) ⟨s, by simp [handleSignal], rfl, rfl⟩ ?_
   rintro a1 s1 ⟨rfl, rfl⟩
-  exact finish_sim false me _ _ _ (by simp [Actor.setStatus, hid]) (by simp [Actor.setStatus, hsup])
+  exact finish_sim me _ _ _ (by simp [Actor.setStatus, hid]) (by simp [Actor.setStatus, hsup])
     (by simp [Actor.setStatus, harmed]) hpf ht (by simp [SupEv.who, hid]) rfl
-    (fun h => classify_killed_state s1 _ (hk (by simpa [Actor.setStatus] using h)))
+    (fun h => classify_killed_noState s1 _ (hk (by simpa [Actor.setStatus] using h)))
 
 
 /-! ### the message loop -/
@@ -199,7 +195,7 @@ theorem Base.notStartable {a : Actor} {s : St} (h : Base a s) : Base a { s with 
 theorem enterPostStop_sim (a : Actor) (r : Reason) (s : St) (hid : a.id = me) (hb : Base a s)
     (harmed : a.armed = true) (hn : a.notifyOnCancel = true)
     (hr : (r.isUser = true ∧ s.stopReason = some r) ∨ (r = .drained ∧ s.drainReq = true)) :
-    Sim (next strict me) (Post me s.sup) s (enterPostStop a r) := by
+    Sim (next me) (Post me s.sup) s (enterPostStop a r) := by
   refine ⟨{ s with startable := false }, by simp [enterPostStop, accepts_cons], ?_, rfl, Or.inr ?_⟩
   · simp [enterPostStop, Actor.setStatus, hid]
   · exact { preFailed := hb.preFailed, terminal := hb.terminal,
@@ -217,7 +213,7 @@ theorem enterPostStop_sim (a : Actor) (r : Reason) (s : St) (hid : a.id = me) (h
 
 theorem listen_sim (a : Actor) (s : St) (hid : a.id = me) (hsup : s.sup = a.sup) (hb : Base a s)
     (harmed : a.armed = true) (hn : a.notifyOnCancel = true) :
-    Sim (next false me) (Post me s.sup) s (listen a) := by
+    Sim (next me) (Post me s.sup) s (listen a) := by
   unfold listen
   split
   · rename_i hsig
@@ -231,7 +227,7 @@ theorem listen_sim (a : Actor) (s : St) (hid : a.id = me) (hsup : s.sup = a.sup)
     split
     · rename_i r hr
       have hr' : a.stopVal = some r := hr
-      refine enterPostStop_sim false me _ r s hid ?_ harmed hn (Or.inl (hb.stopVal r hr'))
+      refine enterPostStop_sim me _ r s hid ?_ harmed hn (Or.inl (hb.stopVal r hr'))
       exact ⟨hb.preFailed, hb.terminal, by simp, by simpa using hb.drain, by simpa using hb.stopTx, by simpa using hb.kill⟩
     · rename_i hstop
       have hstop' : a.stopVal = none := hstop
@@ -255,7 +251,7 @@ theorem listen_sim (a : Actor) (s : St) (hid : a.id = me) (hsup : s.sup = a.sup)
                   started := by intro _; rfl, postStop := by intro r hr; simp at hr }
         · rename_i q hm
           have hm' : a.msgQ = .drain :: q := hm
-          refine enterPostStop_sim false me _ .drained s hid ?_ harmed hn
+          refine enterPostStop_sim me _ .drained s hid ?_ harmed hn
             (Or.inr ⟨rfl, hb.drain (by rw [hm']; exact List.mem_cons_self ..)⟩)
           exact ⟨hb.preFailed, hb.terminal, by simpa using hb.stopVal,
             by intro h; apply hb.drain; rw [hm']; exact List.mem_cons_of_mem _ (by simpa using h),
@@ -423,7 +419,7 @@ theorem Reason.ofUser_isUser (r : Option String) : (Reason.ofUser r).isUser = tr
   cases r <;> rfl
 
 theorem runFx_sim (a : Actor) (s : St) (f : Fx) (hc : Core a s) :
-    Sim (next strict me) (FxRel a s) s (runFx a f) := by
+    Sim (next me) (FxRel a s) s (runFx a f) := by
   cases f with
   | sendSelf m =>
     exact ⟨s, by simp [runFx, accepts_cons], apiSend_frame a m, rfl, send_core m hc, send_killStrong m⟩
@@ -435,12 +431,12 @@ theorem runFx_sim (a : Actor) (s : St) (f : Fx) (hc : Core a s) :
     split <;> rfl
 
 theorem runFxs_sim (fs : List Fx) (a : Actor) (s : St) (hc : Core a s) :
-    Sim (next strict me) (FxRel a s) s (runFxs a fs) := by
+    Sim (next me) (FxRel a s) s (runFxs a fs) := by
   induction fs generalizing a s with
   | nil => exact ⟨s, rfl, Frame.refl a, rfl, hc, id⟩
   | cons f fs ih =>
     unfold runFxs
-    refine Sim.andThen _ (runFx_sim strict me a s f hc) ?_
+    refine Sim.andThen _ (runFx_sim me a s f hc) ?_
     intro a1 s1 ⟨hf, hs, hc1, hk1⟩
     refine Sim.mono _ (ih a1 s1 hc1) ?_
     intro a2 s2 ⟨hf2, hs2, hc2, hk2⟩
@@ -465,12 +461,12 @@ theorem Core.congr {a a' : Actor} {s : St} (h0 : a'.phase = a.phase) (h1 : a'.ar
 theorem runSeg_sim (a : Actor) (s : St) (cb : Cb) (sg : Seg) (k : Actor → Res → M)
     (hid : a.id = me) (hc : Core a s) (hsig : a.sigVal = false)
     (hk : ∀ a1 s2 r, Frame a a1 → s2.sup = s.sup → Core a1 s2 → KillStrong a1 s2 →
-        Sim (next strict me) (Post me s.sup) (exitUpd cb r s2) (k a1 r)) :
-    Sim (next strict me) (Post me s.sup) s (runSeg a cb sg k) := by
+        Sim (next me) (Post me s.sup) (exitUpd cb r s2) (k a1 r)) :
+    Sim (next me) (Post me s.sup) s (runSeg a cb sg k) := by
   unfold runSeg
   refine Sim.andThen _ (R1 := fun a1 s1 => a1 = a ∧ s1 = s) ⟨s, by simp [say, accepts_cons], rfl, rfl⟩ ?_
   rintro a1 s1 ⟨rfl, rfl⟩
-  refine Sim.andThen _ (runFxs_sim strict me sg.fx a1 s1 hc) ?_
+  refine Sim.andThen _ (runFxs_sim me sg.fx a1 s1 hc) ?_
   intro a2 s2 ⟨hf, hs2, hc2, hk2⟩
   have hks : KillStrong a2 s2 := hk2 (by intro h; rw [hsig] at h; cases h)
   cases ht : sg.term with
@@ -493,18 +489,18 @@ theorem runSeg_sim (a : Actor) (s : St) (cb : Cb) (sg : Seg) (k : Actor → Res 
     exact hk a3 s2 (.panic n) hf hs2 hc2 hks
 
 theorem classify_failed (s : St) (c : Nat) (p : Bool) (n : Nat) (h : s.fail = some (p, n)) :
-    classify strict s (.failed c p n) = .ok () := by
+    classify s (.failed c p n) = .ok () := by
   simp [classify, h]
 
 theorem classify_graceful (s : St) (c : Nat) (r : Reason) (hps : s.postStopOk = true)
     (hr : (r.isUser = true ∧ s.stopReason = some r) ∨ (r = .drained ∧ s.drainReq = true)) :
-    classify strict s (.terminated c true r) = .ok () := by
+    classify s (.terminated c true r) = .ok () := by
   rcases hr with ⟨hu, hs⟩ | ⟨hd, hq⟩
   · cases r <;> simp [Reason.isUser] at hu <;> simp [classify, hps, hs]
   · subst hd; simp [classify, hps, hq]
 
 theorem classify_cancelled (s : St) (c : Nat) (h : s.aborted = true) :
-    classify strict s (.terminated c false .cancelled) = .ok () := by
+    classify s (.terminated c false .cancelled) = .ok () := by
   simp [classify, h]
 
 theorem Base.congr {a a' : Actor} {s : St} (h3 : a'.stopVal = a.stopVal) (h4 : a'.msgQ = a.msgQ)
@@ -531,18 +527,18 @@ theorem exitUpd_base {a : Actor} {s : St} (cb : Cb) (r : Res) (h : cb ≠ .preSt
   · cases cb <;> cases r <;> exact hb.kill
 
 theorem exitUpd_fail (cb : Cb) (r : Res) (s : St) (h : cb ≠ .preStart) (hr : r ≠ .ok) (a : Actor) :
-    classify false (exitUpd cb r s) (failedEv a r) = .ok () := by
+    classify (exitUpd cb r s) (failedEv a r) = .ok () := by
   cases r with
   | ok => exact absurd rfl hr
-  | err n => cases cb <;> first | exact absurd rfl h | exact classify_failed false _ _ _ _ rfl
-  | panic n => cases cb <;> first | exact absurd rfl h | exact classify_failed false _ _ _ _ rfl
+  | err n => cases cb <;> first | exact absurd rfl h | exact classify_failed _ _ _ _ rfl
+  | panic n => cases cb <;> first | exact absurd rfl h | exact classify_failed _ _ _ _ rfl
 
 /-- The callback failed: `ActorFailed` with the error / panic text. -/
 theorem failed_sim (a a' : Actor) (s2 : St) (cb : Cb) (r : Res) (hid : a.id = me) (hsup : s2.sup = a.sup)
     (hb : Base a s2) (harmed : a.armed = true) (hcb : cb ≠ .preStart) (hr : r ≠ .ok)
     (h1 : a'.id = a.id) (h2 : a'.sup = a.sup) (h3 : a'.armed = a.armed) :
-    Sim (next false me) (Post me s2.sup) (exitUpd cb r s2) (finish a' (failedEv a r)) := by
-  have := finish_sim false me a' (failedEv a r) (exitUpd cb r s2) (by rw [h1]; exact hid)
+    Sim (next me) (Post me s2.sup) (exitUpd cb r s2) (finish a' (failedEv a r)) := by
+  have := finish_sim me a' (failedEv a r) (exitUpd cb r s2) (by rw [h1]; exact hid)
     (by rw [exitUpd_sup, h2]; exact hsup) (by rw [h3]; exact harmed)
     (by rw [exitUpd_preFailed cb r s2 hcb]; exact hb.preFailed) (by rw [exitUpd_terminal]; exact hb.terminal)
     (by cases r <;> simp [failedEv, SupEv.who, hid]) (by cases r <;> rfl)
@@ -553,11 +549,11 @@ theorem failed_sim (a a' : Actor) (s2 : St) (cb : Cb) (r : Res) (hid : a.id = me
 `exit` event. -/
 theorem afterExit_sim (a : Actor) (s2 : St) (cb : Cb) (r : Res) (hid : a.id = me) (hsup : s2.sup = a.sup)
     (hc : Core a s2) (hcb : a.phase.openCb = some cb) (htask : a.phase.isTask = true) :
-    Sim (next false me) (Post me s2.sup) (exitUpd cb r s2) (afterExit a r) := by
+    Sim (next me) (Post me s2.sup) (exitUpd cb r s2) (afterExit a r) := by
   subst hid
   have harmed : a.armed = true := hc.armed (by intro h; simp [h, Phase.isTask] at htask)
   have hn : a.notifyOnCancel = true := hc.notify htask
-  have hlisten : cb ≠ .preStart → Sim (next false a.id) (Post a.id s2.sup) (exitUpd cb r s2) (listen a) := by
+  have hlisten : cb ≠ .preStart → Sim (next a.id) (Post a.id s2.sup) (exitUpd cb r s2) (listen a) := by
     intro h
     have := listen_sim a.id a (exitUpd cb r s2) rfl (by rw [exitUpd_sup]; exact hsup)
       (exitUpd_base cb r h hc.toBase) harmed hn
@@ -588,7 +584,7 @@ theorem afterExit_sim (a : Actor) (s2 : St) (cb : Cb) (r : Res) (hid : a.id = me
           refine ⟨{ (exitUpd .postStart .ok s2) with startedEmitted := true, startable := false }, ?_, rfl, rfl, ?_⟩
           · simp only [Actor.setStatus, hs, evs_cons_ev, evs_nil]
             rw [accepts_cons_ok _ _ (by
-              exact next_emit_started false a.id (exitUpd .postStart .ok s2) p (by rw [exitUpd_sup, hsup, hs])
+              exact next_emit_started a.id (exitUpd .postStart .ok s2) p (by rw [exitUpd_sup, hsup, hs])
                 hb.preFailed hb.terminal hse rfl)]
             rfl
           · exact ⟨hb.preFailed, hb.terminal, hb.stopVal, hb.drain, hb.stopTx, hb.kill⟩
@@ -632,9 +628,9 @@ theorem afterExit_sim (a : Actor) (s2 : St) (cb : Cb) (r : Res) (hid : a.id = me
     | ok =>
       simp only [afterExit, hph]
       have hb := exitUpd_base (a := a) .postStop .ok (by simp) hc.toBase
-      have := finish_sim false a.id a (.terminated a.id true rs) (exitUpd .postStop .ok s2) rfl
+      have := finish_sim a.id a (.terminated a.id true rs) (exitUpd .postStop .ok s2) rfl
         (by rw [exitUpd_sup]; exact hsup) harmed hb.preFailed hb.terminal (by simp [SupEv.who]) rfl
-        (fun _ => classify_graceful false _ _ rs rfl (hc.postStop rs hph))
+        (fun _ => classify_graceful _ _ rs rfl (hc.postStop rs hph))
       rwa [exitUpd_sup] at this
     | err n =>
       simp only [afterExit, hph]
@@ -646,7 +642,7 @@ theorem afterExit_sim (a : Actor) (s2 : St) (cb : Cb) (r : Res) (hid : a.id = me
 
 theorem afterPre_sim (a : Actor) (s2 : St) (supOk : Bool) (r : Res) (hid : a.id = me)
     (hc : Core a s2) (hph : a.phase = .pre) (hks : KillStrong a s2) :
-    Sim (next strict me) (Post me s2.sup) (exitUpd .preStart r s2) (afterPre a supOk r) := by
+    Sim (next me) (Post me s2.sup) (exitUpd .preStart r s2) (afterPre a supOk r) := by
   have hse : s2.startedEmitted = false := by
     cases h : s2.startedEmitted with
     | false => rfl
@@ -654,10 +650,10 @@ theorem afterPre_sim (a : Actor) (s2 : St) (supOk : Bool) (r : Res) (hid : a.id 
   have harmed : a.armed = true := hc.armed (by simp [hph])
   cases r with
   | err n =>
-    have := failSpawn_sim strict me a (.startup false n) (exitUpd .preStart (.err n) s2) hid (by simp)
+    have := failSpawn_sim me a (.startup false n) (exitUpd .preStart (.err n) s2) hid (by simp)
     simpa [afterPre, exitUpd_sup] using this
   | panic n =>
-    have := failSpawn_sim strict me a (.startup true n) (exitUpd .preStart (.panic n) s2) hid (by simp)
+    have := failSpawn_sim me a (.startup true n) (exitUpd .preStart (.panic n) s2) hid (by simp)
     simpa [afterPre, exitUpd_sup] using this
   | ok =>
     simp only [afterPre]
@@ -677,15 +673,15 @@ theorem afterPre_sim (a : Actor) (s2 : St) (supOk : Bool) (r : Res) (hid : a.id 
               postStop := by intro r hr; rw [h2] at hr; cases hr }
     split
     · split
-      · have := failSpawn_sim strict me a .nolink (exitUpd .preStart .ok s2) hid (by simp)
+      · have := failSpawn_sim me a .nolink (exitUpd .preStart .ok s2) hid (by simp)
         simpa [exitUpd_sup] using this
       · refine ⟨exitUpd .preStart .ok s2, ?_, hlinked _ rfl rfl rfl rfl rfl rfl rfl rfl⟩
         simp only [evs_cons_eff, evs_cons_ev, evs_nil]
-        rw [accepts_cons_ok _ _ (next_spawnRet_ok strict me (exitUpd .preStart .ok s2) hc.preFailed)]
+        rw [accepts_cons_ok _ _ (next_spawnRet_ok me (exitUpd .preStart .ok s2) hc.preFailed)]
         rfl
     · refine ⟨exitUpd .preStart .ok s2, ?_, hlinked _ rfl rfl rfl rfl rfl rfl rfl rfl⟩
       simp only [evs_cons_ev, evs_nil]
-      rw [accepts_cons_ok _ _ (next_spawnRet_ok strict me (exitUpd .preStart .ok s2) hc.preFailed)]
+      rw [accepts_cons_ok _ _ (next_spawnRet_ok me (exitUpd .preStart .ok s2) hc.preFailed)]
       rfl
 
 theorem openCb_ne_pre {ph : Phase} {cb : Cb} (h : ph.openCb = some cb) (ht : ph.isTask = true) : cb ≠ .preStart := by
@@ -693,7 +689,7 @@ theorem openCb_ne_pre {ph : Phase} {cb : Cb} (h : ph.openCb = some cb) (ht : ph.
 
 theorem pollOpen_sim (a : Actor) (s : St) (cb : Cb) (hid : a.id = me) (hsup : s.sup = a.sup) (hc : Core a s)
     (hcb : a.phase.openCb = some cb) (htask : a.phase.isTask = true) :
-    Sim (next false me) (Post me s.sup) s (pollOpen a cb) := by
+    Sim (next me) (Post me s.sup) s (pollOpen a cb) := by
   have harmed : a.armed = true := hc.armed (by intro h; simp [h, Phase.isTask] at htask)
   unfold pollOpen
   simp only []
@@ -705,19 +701,19 @@ theorem pollOpen_sim (a : Actor) (s : St) (cb : Cb) (hid : a.id = me) (hsup : s.
       · exact hk
       · simp [hk] at h
     refine Sim.andThen _ (R1 := fun a1 s1 => s1 = s ∧ a1 = { a with woken := false, sigVal := false })
-      ⟨s, by simp [say, accepts_cons, next_cancelled_other false me s cb (openCb_ne_pre hcb htask)], rfl, rfl⟩ ?_
+      ⟨s, by simp [say, accepts_cons, next_cancelled_other me s cb (openCb_ne_pre hcb htask)], rfl, rfl⟩ ?_
     rintro a1 s1 ⟨rfl, rfl⟩
     split
     · exact killedInLoop_sim me _ s1 hid hsup harmed hc.preFailed hc.terminal hk
     · exact killedInLoop_sim me _ s1 hid hsup harmed hc.preFailed hc.terminal hk
-    · exact killedOutsideLoop_sim false me _ s1 hid hsup harmed hc.preFailed hc.terminal hk
+    · exact killedOutsideLoop_sim me _ s1 hid hsup harmed hc.preFailed hc.terminal hk
   · rename_i hsig
     split
     · exact ⟨s, rfl, hid, rfl, Or.inr (hc.congr (by rfl) (by rfl) (by rfl) (by rfl) (by rfl) (by rfl) (by rfl) (by rfl))⟩
     · rename_i sg hsg
       have hc' : Core ({ a with woken := false, sigW := true, seg := none } : Actor) s :=
         hc.congr (by rfl) (by rfl) (by rfl) (by rfl) (by rfl) (by rfl) (by rfl) (by rfl)
-      refine runSeg_sim false me _ s cb sg afterExit hid hc' (by simpa using hsig) ?_
+      refine runSeg_sim me _ s cb sg afterExit hid hc' (by simpa using hsig) ?_
       intro a1 s2 r hf hs2 hc1 _
       have := afterExit_sim me a1 s2 cb r (by rw [hf.id]; exact hid) (by rw [hs2, hsup, hf.sup]) hc1
         (by rw [hf.phase]; exact hcb) (by rw [hf.phase]; exact htask)
@@ -728,7 +724,7 @@ theorem Inv.core {a : Actor} {s : St} (h : Inv me a s) (hnd : a.phase ≠ .done)
   · exact absurd h hnd
   · exact h
 
-theorem opPoll_sim (a : Actor) (s : St) (h : Inv me a s) : Sim (next false me) (Post me a.sup) s (opPoll a) := by
+theorem opPoll_sim (a : Actor) (s : St) (h : Inv me a s) : Sim (next me) (Post me a.sup) s (opPoll a) := by
   have hid := h.1
   have hsup := h.2.1
   rw [← hsup]
@@ -745,7 +741,7 @@ theorem opPoll_sim (a : Actor) (s : St) (h : Inv me a s) : Sim (next false me) (
         rcases hc.kill hsig with hk | hk
         · exact hk
         · simp [hk] at h'
-      exact killedOutsideLoop_sim false me _ s hid hsup harmed hc.preFailed hc.terminal hk
+      exact killedOutsideLoop_sim me _ s hid hsup harmed hc.preFailed hc.terminal hk
     · refine ⟨{ s with startable := false }, by simp [accepts_cons], hid, rfl, Or.inr ?_⟩
       have hse : s.startedEmitted = false := by
         cases h' : s.startedEmitted with
@@ -774,7 +770,7 @@ theorem opPoll_sim (a : Actor) (s : St) (h : Inv me a s) : Sim (next false me) (
 
 
 theorem opSpawn_sim (a : Actor) (s : St) (sup : Option Nat) (h : Inv me a s) :
-    Sim (next strict me) (Post me a.sup) s (opSpawn a sup) := by
+    Sim (next me) (Post me a.sup) s (opSpawn a sup) := by
   have hid := h.1
   have hsup := h.2.1
   rw [← hsup]
@@ -797,7 +793,7 @@ theorem opSpawn_sim (a : Actor) (s : St) (sup : Option Nat) (h : Inv me a s) :
   · exact ⟨s, rfl, by rw [hsup]; exact h⟩
 
 theorem opPollSpawn_sim (a : Actor) (s : St) (supOk : Bool) (h : Inv me a s) :
-    Sim (next strict me) (Post me a.sup) s (opPollSpawn a supOk) := by
+    Sim (next me) (Post me a.sup) s (opPollSpawn a supOk) := by
   have hid := h.1
   have hsup := h.2.1
   rw [← hsup]
@@ -811,7 +807,7 @@ theorem opPollSpawn_sim (a : Actor) (s : St) (supOk : Bool) (h : Inv me a s) :
       rintro a1 s1 ⟨hs1, hid1⟩
       refine Sim.andThen _ (R1 := fun a2 s2 => s2 = s1 ∧ a2.id = me) ⟨s1, by simp [handleSignal], rfl, by simpa [handleSignal] using hid1⟩ ?_
       rintro a2 s2 ⟨rfl, hid2⟩
-      have := failSpawn_sim strict me a2 .killed s2 hid2 (by simp)
+      have := failSpawn_sim me a2 .killed s2 hid2 (by simp)
       rwa [hs1] at this
     · rename_i hsig
       split
@@ -819,14 +815,14 @@ theorem opPollSpawn_sim (a : Actor) (s : St) (supOk : Bool) (h : Inv me a s) :
       · rename_i sg hsg
         have hc' : Core ({ a with seg := none } : Actor) s :=
           hc.congr (by rfl) (by rfl) (by rfl) (by rfl) (by rfl) (by rfl) (by rfl) (by rfl)
-        refine runSeg_sim strict me _ s .preStart sg _ hid hc' (by simpa using hsig) ?_
+        refine runSeg_sim me _ s .preStart sg _ hid hc' (by simpa using hsig) ?_
         intro a1 s2 r hf hs2 hc1 hks
-        have := afterPre_sim strict me a1 s2 supOk r (by rw [hf.id]; exact hid) hc1 (by rw [hf.phase]; exact hph) hks
+        have := afterPre_sim me a1 s2 supOk r (by rw [hf.id]; exact hid) hc1 (by rw [hf.phase]; exact hph) hks
         rwa [hs2] at this
   · exact ⟨s, rfl, by rw [hsup]; exact h⟩
 
 theorem opDropSpawn_sim (a : Actor) (s : St) (h : Inv me a s) :
-    Sim (next strict me) (Post me a.sup) s (opDropSpawn a) := by
+    Sim (next me) (Post me a.sup) s (opDropSpawn a) := by
   have hid := h.1
   have hsup := h.2.1
   rw [← hsup]
@@ -835,13 +831,13 @@ theorem opDropSpawn_sim (a : Actor) (s : St) (h : Inv me a s) :
   · obtain ⟨h1, h2, _⟩ := cleanup_none a
     refine ⟨{ s with preFailed := true }, ?_, ?_, rfl, Or.inl (by simp [Actor.dropPorts])⟩
     · simp only [andThen_snd, andThen_fst, evs_append, evs_cons_ev, evs_nil, h1, List.append_nil]
-      rw [accepts_cons_ok _ _ (next_dropped strict me s), accepts_cons_ok _ _ (next_cancelled_pre strict me _)]
+      rw [accepts_cons_ok _ _ (next_dropped me s), accepts_cons_ok _ _ (next_cancelled_pre me _)]
       rfl
     · simp [Actor.dropPorts, h2, hid]
   · exact ⟨s, rfl, by rw [hsup]; exact h⟩
 
 theorem opAbort_sim (a : Actor) (s : St) (h : Inv me a s) :
-    Sim (next strict me) (Post me a.sup) s (opAbort a) := by
+    Sim (next me) (Post me a.sup) s (opAbort a) := by
   have hid := h.1
   have hsup := h.2.1
   rw [← hsup]
@@ -855,16 +851,16 @@ theorem opAbort_sim (a : Actor) (s : St) (h : Inv me a s) :
     · cases hcb : a.phase.openCb with
       | none => exact ⟨_, by simp [accepts_cons], rfl, rfl⟩
       | some cb =>
-        exact ⟨_, by simp [accepts_cons, next_cancelled_other strict me _ cb (openCb_ne_pre hcb htask)], rfl, rfl⟩
+        exact ⟨_, by simp [accepts_cons, next_cancelled_other me _ cb (openCb_ne_pre hcb htask)], rfl, rfl⟩
     · rintro a1 s1 ⟨rfl, rfl⟩
       simp only [hn, ↓reduceIte]
-      obtain ⟨s2, hacc, h1, h2, h3, h4, _⟩ := cleanup_some strict me a1 (.terminated a1.id false .cancelled)
+      obtain ⟨s2, hacc, h1, h2, h3, h4, _⟩ := cleanup_some me a1 (.terminated a1.id false .cancelled)
         { s with aborted := true } hid hsup harmed hc.preFailed hc.terminal (by simp [SupEv.who, hid]) rfl
-        (fun _ => classify_cancelled strict _ _ rfl)
+        (fun _ => classify_cancelled _ _ rfl)
       refine ⟨s2, ?_, ?_, h1, Or.inl (by simp [Actor.dropPorts])⟩
       · simp only [andThen_snd, evs_append, evs_cons_ev, evs_nil]
         rw [accepts_append _ _ hacc]
-        rw [accepts_cons_ok _ _ (next_join_cancelled strict me s2 (by rw [h2]) (by rw [h1]; exact h3))]
+        rw [accepts_cons_ok _ _ (next_join_cancelled me s2 (by rw [h2]) (by rw [h1]; exact h3))]
         rfl
       · simpa [Actor.dropPorts] using h4
   · exact ⟨s, rfl, by rw [hsup]; exact h⟩
@@ -880,7 +876,7 @@ theorem Post.congr {id0 : Nat} {sup0 : Option Nat} {a a' : Actor} {s : St} (hi :
   · right; exact hc.congr h0 h1 h2 h3 h4 h5 h6 h7
 
 theorem opResume_sim (a : Actor) (s : St) (sg : Seg) (h : Inv me a s) :
-    Sim (next strict me) (Post me a.sup) s (opResume a sg) := by
+    Sim (next me) (Post me a.sup) s (opResume a sg) := by
   unfold opResume
   split
   · exact ⟨s, rfl, h⟩
@@ -897,7 +893,7 @@ theorem Post.api {a a' : Actor} {s s' : St} (hf : Frame a a') (hs : s'.sup = s.s
   · right; exact hc hcore
 
 theorem envOp_sim (a : Actor) (s : St) (op : AOp) (h : Inv me a s) :
-    Sim (next strict me) (Post me a.sup) s (a.envOp op) := by
+    Sim (next me) (Post me a.sup) s (a.envOp op) := by
   cases op with
   | send m =>
     exact ⟨s, by simp [Actor.envOp, accepts_cons], Post.api me (apiSend_frame a m) rfl (send_core m) h⟩
@@ -949,19 +945,19 @@ theorem envOp_sim (a : Actor) (s : St) (op : AOp) (h : Inv me a s) :
   | _ => exact ⟨s, rfl, h⟩
 
 theorem stepCore_sim (a : Actor) (s : St) (op : AOp) (h : Inv me a s) :
-    Sim (next false me) (Post me a.sup) s (a.stepCore op) := by
+    Sim (next me) (Post me a.sup) s (a.stepCore op) := by
   cases op with
-  | spawn sup => exact opSpawn_sim false me a s sup h
-  | pollSpawn supOk => exact opPollSpawn_sim false me a s supOk h
-  | dropSpawn => exact opDropSpawn_sim false me a s h
+  | spawn sup => exact opSpawn_sim me a s sup h
+  | pollSpawn supOk => exact opPollSpawn_sim me a s supOk h
+  | dropSpawn => exact opDropSpawn_sim me a s h
   | poll => exact opPoll_sim me a s h
-  | abort => exact opAbort_sim false me a s h
-  | resume sg => exact opResume_sim false me a s sg h
+  | abort => exact opAbort_sim me a s h
+  | resume sg => exact opResume_sim me a s sg h
   | _ =>
     simp only [Actor.stepCore]
     split
     · exact ⟨s, rfl, h⟩
-    · exact envOp_sim false me a s _ h
+    · exact envOp_sim me a s _ h
 
 theorem Core.setSup {a : Actor} {s : St} (p : Option Nat) (hc : Core a s) : Core a { s with sup := p } :=
   { preFailed := hc.preFailed, terminal := hc.terminal, stopVal := hc.stopVal, drain := hc.drain,
@@ -969,7 +965,7 @@ theorem Core.setSup {a : Actor} {s : St} (p : Option Nat) (hc : Core a s) : Core
     postStop := hc.postStop }
 
 theorem step_sim (a : Actor) (s : St) (op : AOp) (h : Inv me a s) :
-    Sim (next false me) (Inv me) s (a.step op) := by
+    Sim (next me) (Inv me) s (a.step op) := by
   obtain ⟨s1, hacc, hid, hsup, hrest⟩ := stepCore_sim me a s op h
   unfold Actor.step
   simp only []
@@ -985,7 +981,7 @@ theorem step_sim (a : Actor) (s : St) (op : AOp) (h : Inv me a s) :
       · exact Or.inr (hc.setSup _)
 
 theorem run_sim (ops : List AOp) (a : Actor) (s : St) (h : Inv me a s) :
-    ∃ s', accepts (next false me) s (a.run ops).2 = .ok s' ∧ Inv me (a.run ops).1 s' := by
+    ∃ s', accepts (next me) s (a.run ops).2 = .ok s' ∧ Inv me (a.run ops).1 s' := by
   induction ops generalizing a s with
   | nil => exact ⟨s, rfl, h⟩
   | cons op ops ih =>
@@ -1002,54 +998,5 @@ theorem inv_init (id : Nat) : Inv id (Actor.init id) {} := by
           stopTx := by simp, kill := by simp [Actor.init], armed := by simp [Actor.init],
           notify := by simp [Actor.init, Phase.isTask], started := by simp, postStop := by simp [Actor.init] }
 
-
-/-! ### strict vs. non-strict automaton -/
-
-/-- The classifier of the finding: a terminal event "killed" that carries the final state. -/
-def isKillState : Ev → Bool
-  | .emit _ (.terminated _ true .killed) => true
-  | _ => false
-
-def noKillState (tr : List Ev) : Bool := tr.all (fun e => !isKillState e)
-
-theorem classify_strict_eq (s : St) (e : SupEv) (h : isKillState (.emit 0 e) = false) :
-    classify true s e = classify false s e := by
-  cases e with
-  | started c => rfl
-  | failed c p n => rfl
-  | terminated c st r =>
-    cases r <;> try rfl
-    cases st
-    · simp [classify]
-    · simp [isKillState] at h
-
-theorem next_strict_eq (s : St) (e : Ev) (h : isKillState e = false) : next true me s e = next false me s e := by
-  cases e with
-  | emit to ev =>
-    have hc : classify true s ev = classify false s ev :=
-      classify_strict_eq s ev (by
-        cases ev with
-        | started c => rfl
-        | failed c p n => rfl
-        | terminated c st r => cases st <;> cases r <;> first | rfl | (simp [isKillState] at h))
-    simp only [next, hc]
-  | cancelled cb => cases cb <;> rfl
-  | stopRet b r ok => cases ok <;> rfl
-  | killRet b ok => cases ok <;> rfl
-  | drainRet ok => cases ok <;> rfl
-  | spawnRet r => cases r <;> rfl
-  | join r => cases r <;> rfl
-  | _ => rfl
-
-theorem accepts_strict_eq (tr : List Ev) (s : St) (h : noKillState tr = true) :
-    accepts (next true me) s tr = accepts (next false me) s tr := by
-  induction tr generalizing s with
-  | nil => rfl
-  | cons e es ih =>
-    simp only [noKillState, List.all_cons, Bool.and_eq_true, Bool.not_eq_true'] at h
-    rw [accepts_cons, accepts_cons, next_strict_eq me s e h.1]
-    cases next false me s e with
-    | ok s' => exact ih s' (by simpa [noKillState] using h.2)
-    | error c => rfl
 
 end Life.C04
